@@ -134,9 +134,16 @@ def drive(level: int) -> int:
 	return engine.boost(other.power)
 '''
 
+P_CLASSES_CFG = P_CLASSES + '''
+def weigh(box: Box, twin: Twin, shape: Shape) -> int:
+	return box.depth + twin.count + shape.count
+'''
+# a program name 'x@immutable:K' means: the project class K is listed in env.view.immutable_param_types of the
+# configuration (parameters of that type are passed by const reference); a renaming of K is applied to that entry too
 PROGRAMS = {
     'funcs': {'prog_funcs': P_FUNCS},
     'classes': {'prog_classes': P_CLASSES},
+    'classes@immutable:Shape': {'prog_classes_cfg': P_CLASSES_CFG},
     'modules': {'mod_a': P_MOD_A, 'mod_b': P_MOD_B},
 }
 
@@ -226,13 +233,16 @@ def rename_text(text: str, mapping: dict) -> str:
     return ''.join(out)
 
 
-def observe(sources: dict):
+def observe(sources: dict, immutable=None):
     """Returns ('ok', {module: cpp}, {key: type description}) or ('err', class, message)."""
-    from mc.tranp.session import Session
+    from mc.tranp.session import Session, VIEW_ENV
     from rogw.tranp.errors import Errors
     from rogw.tranp.semantics.reflection.helper.naming import ClassShorthandNaming
     try:
-        s = Session(dict(sources))
+        view_env = None
+        if immutable:
+            view_env = {'immutable_param_types': list(VIEW_ENV['immutable_param_types']) + list(immutable)}
+        s = Session(dict(sources), view_env=view_env)
         outs = {m: s.transpile(m) for m in sources}
         table = {}
         for m in sources:
@@ -246,6 +256,12 @@ def observe(sources: dict):
         return ('err', type(e).__name__, str(e)[:300])
     except Exception as e:  # noqa
         return ('err', 'raw:' + type(e).__name__, str(e)[:300])
+
+
+def immutable_of(pname: str, mapping: dict):
+    if '@immutable:' not in pname:
+        return None
+    return [mapping.get(k, k) for k in pname.split('@immutable:')[1].split(',')]
 
 
 def fresh_class(n: str) -> str:
@@ -265,7 +281,7 @@ def fresh_class(n: str) -> str:
 def worker(task):
     pname, sources, base, mapping, role = task
     renamed_sources = {m: rename_python(src, mapping) for m, src in sources.items()}
-    got = observe(renamed_sources)
+    got = observe(renamed_sources, immutable_of(pname, mapping))
     viol = []
     kinds = '+'.join(sorted({fresh_class(v) for v in mapping.values()}))
     rep = {'program': pname, 'mapping': mapping}
@@ -326,7 +342,7 @@ def run(ctx):
     bases = {}
     idents = {}
     for pname, sources in PROGRAMS.items():
-        base = observe(sources)
+        base = observe(sources, immutable_of(pname, {}))
         if base[0] != 'ok':
             from mc.core.runner import HarnessError
             raise HarnessError(f'base program {pname} is rejected: {base}')
@@ -361,6 +377,8 @@ def run(ctx):
                 for f1, f2 in FRESH_PAIRS[:4]:
                     if f1 not in all_names and f2 not in all_names:
                         tasks.append((pname, sources, base, {i1: f1, i2: f2}, 'pair'))
+    # the configuration variants repeat only the class renamings (the configuration names classes)
+    tasks = [t for t in tasks if '@' not in t[0] or t[4] == 'class']
     ctx.log(f'{len(tasks)} renamings over {sum(len(v) for v in idents.values())} identifiers')
     # determinism self-test: the base observation twice
     again = observe(PROGRAMS['funcs'])
@@ -387,6 +405,6 @@ def run(ctx):
 
 def replay(ctx, data):
     sources = PROGRAMS[data['program']]
-    base = observe(sources)
+    base = observe(sources, immutable_of(data['program'], {}))
     viol, _ = worker((data['program'], sources, base, data['mapping'], 'replay'))
     ctx.merge(viol)
